@@ -30,7 +30,7 @@ def vec(v):
 def cases(tier):
     """[(mode, line, description, class used in violation keys)]"""
     out = []
-    vs = vectors(4 if tier == 'quick' else 5)
+    vs = vectors(5 if tier == 'quick' else 6)
     for i, v in enumerate(vs):
         env = vs[(7 * i + 3) % len(vs)]
         for pl in (0, 1, 2):
@@ -38,7 +38,7 @@ def cases(tier):
                 out.append(('args', '%s,%s,%d,%d' % (vec(v), vec(env), pl, ns),
                             '%s: argv=[%s] environ=[%s], buffers %s' % (NSNAME[ns], ', '.join(STRS[k] for k in v), ', '.join(STRS[k] for k in env),
                                                                          ['at the start', 'unaligned', 'ending at the end of guest memory'][pl]),
-                            'n=%d/%d,placement=%d' % (len(v), len(env), pl)))
+                            'placement=%d' % pl))
     seqs = [s for s in itertools.product(range(4), repeat=3) if s[0] <= s[1] <= s[2]]
     for fn in 'tr':
         for ns in (0, 1):
@@ -66,7 +66,7 @@ def thread_spawn_part(chk, tier):
 
 
 def main(tier):
-    if tier == 'replay':
+    if tier in ('replay', '--replay'):
         res = replay_main(sys.argv[2], make_harness)
         print('REPLAY: %s' % ('differs from the reference / sanitizer report' if (res['x'] or crash_class(res)) else 'case agrees with the reference on the current tree'))
         return 1 if (res['x'] or crash_class(res)) else 0
@@ -87,7 +87,7 @@ def main(tier):
                 continue
             seen = set()
             for stepno, what, rest in r['x']:
-                key = '%s|%s|%s' % (r['steps'][min(stepno, len(r['steps']) - 1)][1] if r['steps'] else mode, c[3], what)
+                key = '%s|%s|%s' % (mode, c[3], what)
                 if key not in seen:
                     seen.add(key)
                     ex.report(key, c[1], r, '%s: %s — %s' % (what, rest, c[2]), lambda l: descr[l])
@@ -98,7 +98,7 @@ def main(tier):
     rule = ('(a) every argv vector of 0..%d strings over 5 string classes (environment = another vector of the same set) x 3 buffer placements x both name spaces; '
             '(b) clock_time_get/clock_res_get for ids 0..3 with the interposed host clock answering every non-decreasing 3-sequence of a 4-value menu, invalid ids, one run on the real clocks; '
             '(c) random_get lengths with a model of getentropy and with the real one; (d) proc_exit codes; one forked child per case; '
-            'states = distinct (call, errno, details) observations; distinct_nontrivial = distinct (call, outcome class) pairs' % (4 if tier == 'quick' else 5))
+            'states = distinct (call, errno, details) observations; distinct_nontrivial = distinct (call, outcome class) pairs' % (5 if tier == 'quick' else 6))
     return ex.finish(rule, {'cases_per_part': per_mode, 'max_depth_completed': 3, 'thread_spawn_part': 'not built here (hook thread_spawn_part)'},
                      ['"every requested byte written" is decided by five calls on memory pre-filled with five different bytes: a position that keeps the pre-fill every time was not written',
                       'the model of getentropy follows POSIX/glibc: at most 256 bytes per call, EIO above'])
